@@ -9,11 +9,13 @@ typedef struct vf_rb_shape vf_rb_shape_t;
 int vf_rb_was_valid;
 size_t vf_rb_old_avail;
 size_t vf_rb_old_drop;
+const r_buf_t *vf_rb_gring;
 
 void harness(void) {
 	VF_NONDET_OBJ(vf_rb_shape_t, shape);
 	r_buf_p r = vf_rb_build(&shape);
 	VF_ASSUME(vf_rb_wf(r));
+	vf_rb_gring = r;
 #ifdef VF_RB_CASE_INDEX	/* case split over the writer's table index (one job per value 0..4) */
 	VF_ASSUME(r->iov_index == VF_RB_CASE_INDEX);
 #endif
@@ -120,6 +122,24 @@ void harness(void) {
 	size_t c = r_buf_data_get(r, &rp, data_size, out, iov_cnt, dropp, dsrp);
 	VF_NATIVE_POST(vf_rb_post_data_get(r, &rp, vf_rb_was_valid, data_size, out, iov_cnt, c, dsrp),
 	    "r_buf_data_get: iovecs inside the ring from the cursor on, sum == *data_size_ret <= available");
+	(void)c;
+
+#elif defined(VF_FN_iovec_aggregate_ex)
+	/* any run of table entries [first, first + cnt) that are blocks of the ring */
+	VF_NONDET(size_t, first);
+	VF_NONDET(size_t, cnt);
+	VF_NONDET(size_t, data_size);
+	VF_NONDET(size_t, off);
+	VF_NONDET(size_t, ret_cnt);
+	VF_ASSUME(first < VF_RB_IOVN && cnt <= VF_RB_IOVN - first);
+	VF_ASSUME(vf_rb_agg_pre(&r->iov[first], cnt, off));
+	VF_ASSUME(ret_cnt <= 2 * VF_RB_IOVN + 2);
+	iovec_p out = (iovec_p)VF_RB_ALLOC((2 * VF_RB_IOVN + 2) * sizeof(iovec_t));
+	VF_ASSUME(out != NULL);
+	size_t rem = 0;
+	size_t c = iovec_aggregate_ex(&r->iov[first], cnt, data_size, off, out, ret_cnt, &rem);
+	VF_NATIVE_POST(vf_rb_post_agg(&r->iov[first], cnt, data_size, off, out, ret_cnt, c, &rem),
+	    "iovec_aggregate_ex: whole blocks in order, consumed == sum of the returned lengths");
 	(void)c;
 
 #elif defined(VF_FN_r_buf_rpos_inc)
